@@ -767,8 +767,12 @@ func (db *DB) CheckpointNoLock(ctx context.Context) (err error) {
 // readWALPageOffsets returns a map of the offsets of the last committed version
 // of each page in the WAL. Also returns the commit size of the last transaction.
 func (db *DB) readWALPageOffsets(f *os.File) (_ map[uint32]int64, lastCommit uint32, _ error) {
+	// A WAL without a usable header (short, bad magic, bad checksum, unknown
+	// version) or for a different page size has no valid frames.
 	r := NewWALReader(f)
-	if err := r.ReadHeader(); err == io.EOF {
+	if err := r.ReadHeader(); err != nil {
+		return nil, 0, nil
+	} else if r.PageSize() != db.pageSize {
 		return nil, 0, nil
 	}
 
